@@ -83,6 +83,6 @@ def distribution(recs):
 
 
 MANIFEST = {
- "text": "Interpreter model of testing.T / ActiveScenario / CombineScenarios over scenario programs as data; theorems for every program: per-iteration cleanups run exactly once in reverse registration order whatever the body and the cleanups do (C06_iter_cleanups, C06_cleanup_panic_contained), after the body and before the worker's next iteration (C06_before_next), setup once first (C06_setup_once_first), failed setup => no iteration and failed run (C06_setup_failure), setup cleanups once, reversed, after every iteration, failure reported (C06_teardown_last). Proof by structural induction on action lists and cleanup stacks (closed form exec_spec). Tie: generated programs run as real closures, event log compared with the interpreter and checked by the monitor.",
+ "text": "Interpreter model of testing.T / ActiveScenario / CombineScenarios over scenario programs as data; theorems for every program: per-iteration cleanups run exactly once in reverse registration order whatever the body and the cleanups do (C06_iter_cleanups, C06_cleanup_panic_contained), after the body and before the worker's next iteration (C06_before_next), setup once first (C06_setup_once_first), failed setup => no iteration and failed run (C06_setup_failure), setup cleanups once, reversed, after every iteration, failure reported (C06_teardown_last). Proof by structural induction on action lists and cleanup stacks (closed form exec_spec). Tie: generated programs run as real closures, event log compared with the interpreter and checked by the monitor. Regenerated: T.teardown calls every registered cleanup exactly once, last first, whatever any of them does (t_teardown_refines, induction over the stack; each in a block whose deferred CheckResults recovers), T.Cleanup pushes (t_Cleanup_refines), ActiveScenario.Run/Setup with a body that may panic (active_Run_window).",
  "note": "Component level (one worker's history); the placement inside Run.Do is proved on Do as a program with defer semantics (Props/C06Do: both executions spelt out, setup once before the iterations, teardown once after run() has returned and before the summary); how run() itself ends is C05's Deadline model; the same clauses are re-proved on every run on `Generated.doBody`, which a translator in /verif/facts regenerates from the statement list of Run.Do (Props/C06DoGen) — a harmless edit of Do keeps passing, a misplaced teardown does not; whole runs tie the rest. Cleanups assumed to terminate.",
- "technique": "Lean 4 theorems by structural induction over scenario programs + event-log correspondence with the real handle"}
+ "technique": "Lean 4 theorems by structural induction over scenario programs + event-log correspondence with the real handle; refinement of the regenerated teardown loop (MiniGo with panics and recovery)"}
